@@ -138,6 +138,13 @@ Theorem C06_in_block_damage_detected :
 Proof. exact in_block_damage_detected. Qed.
 Print Assumptions C06_in_block_damage_detected.
 
+(* 3b. ... and never hangs: on EVERY frame list and any amount of input no decoder of the repaired
+   code fails to return (in particular when bytes follow the zlib stream inside zlib_data). *)
+Theorem C06_never_hangs : forall (T : Type) (fs : list (frame T)) avail,
+  out (scan current fs avail) <> Hung.
+Proof. exact (@scan_never_hangs). Qed.
+Print Assumptions C06_never_hangs.
+
 Theorem C06_getData_never_panics : forall cap0 e, get_data current cap0 e <> GPanic.
 Proof. exact get_data_no_panic. Qed.
 Print Assumptions C06_getData_never_panics.
@@ -187,6 +194,18 @@ Theorem C06_first_block_type_refuted : exists (fs : list (frame Z)),
   out (scan legacy fs (total_size fs)) = Done /\ objects (scan legacy fs (total_size fs)) <> [].
 Proof.
   exists [Frame 12 12 (HdrOk TyOther 50) 50 (BlobOk (Blob EncRaw (PData (DOk [7]))))].
+  vm_compute. intuition congruence.
+Qed.
+
+(* (e) cgo build: bytes after the end of the zlib stream made the streaming czlib reader spin for ever;
+   the data are intact, the repaired code returns them *)
+Theorem C06_trailing_bytes_refuted : exists (fs : list (frame Z)),
+  valid_file fs = true /\
+  out (scan legacy fs (total_size fs)) = Hung /\
+  scan current fs (total_size fs) = Result [(48, [5; 9])] Done.
+Proof.
+  exists [ex_hdr; Frame 12 12 (HdrOk TyData 50) 50
+                        (BlobOk (Blob (EncZlib 80 (InflTrailing 80)) (PData (DOk [5; 9]))))].
   vm_compute. intuition congruence.
 Qed.
 
